@@ -117,6 +117,31 @@ def trace_clauses(par, jobs, events, cut_short, require_complete=True):
     return bad
 
 
+def documented_limit(timeout, mult):
+    """The time limit in force for a test, in seconds (None = no limit): the test's `timeout` (default 30) times the
+    --timeout-multiplier; no limit when the multiplier is <= 0 ("<= 0 to disable timeout") or the timeout is <= 0;
+    timeout: int or None (kwarg absent); mult: float or None (option absent)."""
+    t = 30 if timeout is None else timeout
+    if t <= 0:
+        return None
+    if mult is None:
+        return float(t)
+    if mult <= 0:
+        return None
+    return t * mult
+
+
+def expected_wait(timeout, mult, sleep):
+    """'t' = must be TIMEOUT (a limit is in force and the test sleeps at least twice as long), 'x' = must not be TIMEOUT
+    (no limit in force, or the limit is at least 20 times the sleep), None = too close to call on a loaded machine"""
+    lim = documented_limit(timeout, mult)
+    if lim is None or lim >= 20 * sleep:
+        return 'x'
+    if sleep >= 2 * lim:
+        return 't'
+    return None
+
+
 def stop_clauses(events, maxfail, repeat_gt1):
     """events: exact sequence of ('s', id) / ('e', id, result letter) / ('v', id) as meson processes them.
     `--maxfail N` aborts the run once N tests have failed, and under --repeat a failure cuts the run short:
